@@ -3,12 +3,6 @@
 tier=${1:-quick}; out=${2:-/dev/stdout}
 cd "$(dirname "$0")/.."
 {
-for d in seeded/C*/; do
-  id=$(basename $d); prop=${id%%-*}
-  tools/mutate.sh $d/patch.diff $prop $tier 0 2>/dev/null | sed "s/^MUTANT patch.diff/SEED $id/"
-done
-for m in mutants/*.patch; do
-  prop=$(basename $m | cut -d- -f1)
-  tools/mutate.sh $m $prop $tier 0 2>/dev/null
-done
+tools/run_seeds.sh '.' 4
+ls mutants/*.patch | xargs -P 4 -I{} bash -c 'm={}; prop=$(basename $m | cut -d- -f1); VERIF_JOBS=6 tools/mutate.sh $m $prop quick 0 2>/dev/null | tail -1' | sort
 } > $out
